@@ -269,6 +269,7 @@ type structSpec struct {
 	Only []string // if set: the fields that are modelled (any other field access is an error)
 	Caps []string // slice fields whose capacity is read (`cap(s.f)`): each gets the ghost field f_cap : Int
 	Drop []string // fields that are not modelled although literals set them: their (call-free) initialisers are not translated
+	InFunc string // the type is declared by a `type` statement inside the body of this function of File
 }
 
 type xfield struct {
@@ -283,6 +284,7 @@ type xstruct struct {
 	tparams []string        // further type parameters (spec.Opaque / spec.FloatAbs names the fields mention)
 	caps    map[string]bool // fields with a ghost capacity field
 	drop    map[string]bool // fields left out although literals set them (structSpec.Drop)
+	partial bool            // structSpec.Only / Caps: the Lean structure is not the Go struct field by field
 }
 
 func (x *xtr) structTy(name string) *xty {
@@ -386,6 +388,7 @@ type xtr struct {
 	ptrParams      map[string]bool        // parameters of pointer type (their fields may not be assigned)
 	params         map[string]bool        // parameters (their elements may not be assigned)
 	prims          map[string]bool        // library functions kept abstract (spec.Prims)
+	pkgPrims       map[string]string      // "pkg.Name" -> the parameter that stands for it (spec.Prims "pkg.Name=func..")
 	aliases        map[string]*xty        // named non-struct types of the spec
 	known          map[string]*xty        // functions of the same module translated earlier (callable)
 	poly           bool                   // the function mentions `any`: it gets the type parameter α
